@@ -366,7 +366,11 @@ func allLeaves() []*leaf {
 // plannerLeaves is the reduced alphabet for the depth-3 trees: the leaves the
 // planner predicates look at (permanode-only, typed, single-blob, wholeRef,
 // camliType) plus untyped / non-permanode partners.
-var plannerLeafNames = []string{"any", "ctPerm", "ctFile", "refP1", "refP5", "refP6", "pnAny", "tagFoo", "typeA", "typeB", "fWhole", "fName"}
+var plannerLeafNames = []string{"any", "ctPerm", "ctFile", "refP1", "pnAny", "tagFoo", "typeA", "typeB", "fWhole", "refP5", "refP6", "fName"}
+
+// the quick tier uses the first nine of them (the blobRefPrefix leaves of the
+// deleted / claim-less permanode and the second file leaf only at depth <= 2)
+const quickPlannerLeaves = 9
 
 // tree is a constraint tree over the alphabet.
 type tree struct {
